@@ -48,7 +48,7 @@ Proof.
   - inversion Hr; subst. split; [apply (goodB_refl ip h' w' (inl v))|split; auto using hle_refl].
   - inversion Hr; subst. split; [apply (goodB_refl ip h' w' (inr e))|split; auto using hle_refl].
   - (* Force *)
-    destruct v as [z|fl|b|s|s|l|d|f|i|sp l| |u];
+    destruct v as [z|fl|b|s|s|l|d|f|i|sp l| |u|cr ci];
       try (destruct (IH _ _ _ _ _ _ _ _ Hr Hinv) as (G & L & I); split; [|split; auto];
            eapply goodB_cont; [intros; reflexivity|auto|exact G]).
     destruct (get h u) as [cl|] eqn:Gu.
